@@ -13,7 +13,23 @@ PFX = V4 + V6
 ASES = [0, 65001, 65002, 65003, 4200000001]
 
 
-def gen_rec(rng, wire=True):
+_POOL = []
+
+
+def new_pool(rng, wire=True):
+    """A small per-case pool of records, so that several caches/sources announce the SAME record,
+    re-announce it and withdraw it (strengthened after seeded change C16: duplicate across sources)."""
+    del _POOL[:]
+    for _ in range(rng.choice([2, 3, 4])):
+        _POOL.append(gen_rec(rng, wire, fresh=True))
+
+
+def gen_rec(rng, wire=True, fresh=False):
+    if not fresh and _POOL and rng.random() < 0.7:
+        r = rng.choice(_POOL)
+        if wire and r[3] < r[2]:
+            return (r[0], r[1], r[2], r[2], r[4])
+        return r
     fam, a, l = rng.choice(PFX)
     top = 32 if fam == 1 else 64
     # on the wire (RTR) max-length below the prefix length is rejected by the PDU codec; the table API accepts it
@@ -93,6 +109,7 @@ def rfc6811(roas, route):
 
 # ----- history generators -----
 def gen_table_case(rng):
+    new_pool(rng, wire=False)
     evs, truth = [], set()
     for _ in range(rng.choice([3, 6, 10, 16])):
         r = rng.random()
@@ -154,9 +171,10 @@ def mutate(rng, c):
 
 
 def gen_rtr_case(rng, conforming=True):
+    new_pool(rng)
     evs = []
     caches = {}
-    nsrv = rng.choice([1, 1, 2])
+    nsrv = rng.choice([1, 2, 2, 3])
     for s in range(1, nsrv + 1):
         evs.append("(srv %d)" % s)
         caches[s] = Cache(s)
